@@ -1,6 +1,7 @@
 import GoaVerif.Prelude.Hex
 import GoaVerif.Model.Validation
 import GoaVerif.Lemmas.ValCode
+import GoaVerif.Model.VMerge
 /-!
 `validate <att> <val>` → `called` | `rejected <first> <names,sorted,unique>` ·
 `compile <att>` → `code <canonical statements>`: `ValCode.compileBody`, printed like `rtvalcode run` prints
@@ -179,7 +180,46 @@ def judgeLine (toks : List String) (withEnv : Bool) : Option String := do
     " hyp=" ++ bit (GoaVerif.ValCode.okCtx fuel true a) ++ bit (GoaVerif.ValCode.typed fuel a v) ++
     bit (GoaVerif.ValCode.noBothEx fuel a) ++ bit (GoaVerif.ValCode.collOK fuel a v))
 
+/-! `vmerge <V> <V>`; V = `F <hex> P <hex> E <~|n hex*> xm <~|int> m .. xM .. M .. l .. L .. R <n> <hex>*` -/
+def optBound (s : String) : Option (Option Int) := if s == "~" then some none else s.toInt?.map some
+
+def takeHex : Nat → List String → List String → Option (List String × List String)
+  | 0, ts, acc => some (acc.reverse, ts)
+  | n + 1, t :: ts, acc => do takeHex n ts ((← hexToString t) :: acc)
+  | _, [], _ => none
+
+def parseV : List String → Option (GoaVerif.VMerge.V × List String)
+  | "F" :: f :: "P" :: p :: "E" :: rest => do
+    let f ← hexToString f
+    let p ← hexToString p
+    let (vals, rest) ← (match rest with
+      | "~" :: r => some (none, r)
+      | n :: r => do let (xs, r) ← takeHex (← n.toNat?) r []; some (some xs, r)
+      | [] => none)
+    match rest with
+    | "xm" :: a :: "m" :: b :: "xM" :: c :: "M" :: d :: "l" :: e :: "L" :: g :: "R" :: n :: r =>
+      let (req, r) ← takeHex (← n.toNat?) r []
+      some ({ values := vals, format := f, pattern := p, exMin := ← optBound a, min := ← optBound b, exMax := ← optBound c, max := ← optBound d,
+              minLen := ← optBound e, maxLen := ← optBound g, required := req }, r)
+    | _ => none
+  | _ => none
+
+def showOpt : Option Int → String
+  | none => "~"
+  | some n => toString n
+
+def showV (v : GoaVerif.VMerge.V) : String :=
+  " ".intercalate (["F", encString v.format, "P", encString v.pattern, "E"] ++
+    (match v.values with | none => ["~"] | some xs => toString xs.length :: xs.map encString) ++
+    ["xm", showOpt v.exMin, "m", showOpt v.min, "xM", showOpt v.exMax, "M", showOpt v.max, "l", showOpt v.minLen, "L", showOpt v.maxLen,
+     "R", toString v.required.length] ++ v.required.map encString)
+
 def handle : List String → Option String
+  | "vmerge" :: toks => do
+    let (v, ts) ← parseV toks
+    let (o, ts) ← parseV ts
+    if !ts.isEmpty then none else
+    some ("merged " ++ showV (GoaVerif.VMerge.merge v o))
   | "validate" :: toks => do
     let fuel := toks.length + 2
     let (a, ts) ← parseAtt fuel toks
